@@ -54,6 +54,7 @@ func NewCtx() *Ctx {
 		condAxiom{[]string{"(strlen "}, "(forall ((s Str)) (! (>= (strlen s) 0) :pattern ((strlen s))))"},
 		condAxiom{[]string{"(has_prefix "}, "(forall ((s Str) (p Str)) (! (=> (has_prefix s p) (>= (strlen s) (strlen p))) :pattern ((has_prefix s p))))"},
 		condAxiom{[]string{"(str_concat "}, "(forall ((a Str) (b Str)) (! (= (strlen (str_concat a b)) (+ (strlen a) (strlen b))) :pattern ((str_concat a b))))"},
+		condAxiom{[]string{"(str_concat (str_concat "}, "(forall ((a Str) (b Str) (c Str)) (! (= (str_concat (str_concat a b) c) (str_concat a (str_concat b c))) :pattern ((str_concat (str_concat a b) c))))"},
 		condAxiom{[]string{"(set32 "}, "(forall ((x Int)) (! (=> (and (<= 0 x) (< x 4294967296)) (and (not (bit32 x)) (= (low32 x) x) (bit32 (set32 x)) (= (low32 (set32 x)) x) (>= (set32 x) 4294967296))) :pattern ((set32 x))))"},
 		condAxiom{[]string{"(bit32 "}, "(forall ((x Int)) (! (=> (and (<= 0 x) (< x 4294967296)) (and (not (bit32 x)) (= (low32 x) x))) :pattern ((bit32 x))))"},
 		condAxiom{[]string{"(low32 "}, "(forall ((x Int)) (! (=> (and (<= 0 x) (< x 4294967296)) (= (low32 x) x)) :pattern ((low32 x))))"},
